@@ -238,6 +238,8 @@ pub struct Repair<N: Network> {
     blockstore: SharedBlockstore,
     pool: SharedPool,
     slice_roots: BTreeMap<(BlockId, SliceIndex), SliceRoot>,
+    /// Proven index of the last slice for each block under repair.
+    last_slices: BTreeMap<BlockId, SliceIndex>,
     outstanding_requests: BTreeMap<Hash, RepairRequestType>,
     /// Expiry times of outstanding requests, earliest first (min-heap via [`Reverse`]).
     request_timeouts: BinaryHeap<Reverse<(Instant, Hash)>>,
@@ -266,6 +268,7 @@ where
             blockstore,
             pool,
             slice_roots: BTreeMap::new(),
+            last_slices: BTreeMap::new(),
             outstanding_requests: BTreeMap::new(),
             request_timeouts: BinaryHeap::new(),
             network,
@@ -377,6 +380,7 @@ where
                 self.outstanding_requests.remove(&request_hash);
                 self.slice_roots
                     .insert((block_id.clone(), last_slice), root);
+                self.last_slices.insert(block_id.clone(), last_slice);
 
                 // issue next requests
                 // TODO: do not request last slice root again
@@ -430,6 +434,17 @@ where
                 let Some(root) = self.slice_roots.get(&(block_id.clone(), slice)) else {
                     unreachable!("issued repair request (Shred) before knowing slice root");
                 };
+                // the last-slice flag is not covered by the slice root, but it is
+                // determined by the proven number of slices of the requested block
+                // (a Byzantine leader may have signed the same slice with either flag)
+                if self
+                    .last_slices
+                    .get(block_id)
+                    .is_some_and(|last| shred.payload().header.is_last != (*last == slice))
+                {
+                    warn!("repair response (Shred) with last-slice flag contradicting the block");
+                    return;
+                }
                 let leader_pk = &self.epoch_info.epoch_info().leader(*slot).pubkey;
                 // shred for the wrong slice root, don't even try to verify signature
                 if &shred.slice_root() != root {
